@@ -566,7 +566,10 @@ func (p *jsonPathParser) _createBasicCompareQuery(
 func (p *jsonPathParser) pushCompareEQ(
 	leftParam, rightParam *syntaxBasicCompareParameter) {
 	if leftParam.isLiteral {
-		rightParam, leftParam = leftParam, rightParam
+		// Keep a literal value on the right side: it selects the type-aware comparator.
+		if _, ok := rightParam.param.(*syntaxQueryParamLiteral); !ok {
+			rightParam, leftParam = leftParam, rightParam
+		}
 	}
 
 	if rightLiteralParam, ok := rightParam.param.(*syntaxQueryParamLiteral); ok {
